@@ -1498,7 +1498,8 @@ namespace awkward {
                  nextcontent.get()->getitem_next(nexthead,
                                                  nexttail,
                                                  nextadvanced),
-                 array.shape());
+                 array.shape(),
+                 len);
       }
       else {
         return nextcontent.get()->getitem_next(nexthead,
